@@ -1,7 +1,7 @@
 """C02 — exactness (printer precedence clauses only)."""
 import re
 
-from sa import ccp, local
+from sa import ccp, guards, local
 from sa.facts import callee_name, norm
 from . import common, fmtmodel
 from .C06 import group_printers
@@ -166,3 +166,112 @@ def run(ctx):
     ctx.rule("ADJ-1", "bracket-class ranges x-y are formed only over runs of consecutive scalar values: the position function is the library order of all chars or a "
                       "constant-offset map verified at every breakpoint (surrogate gap), resp. the adjacency predicate agrees with 'next scalar value' on all breakpoint pairs")
     classprinter.adj1(ctx, lib)
+    ctx.rule("UNI-1", "two alternatives are merged into a character class only under dominating single-code-point guards on both")
+    ctx.rule("UNI-2", "`x?` is built from the alternative that is not the one known to be empty")
+    ctx.rule("UNI-3", "a removed common prefix is re-attached in front and a removed common suffix behind the factored rest")
+    uni(ctx, lib)
+
+
+# ----------------------------------------------------------------------------- necessary conditions inside union()
+
+def _operand_roots(o):
+    """parameter-rooted operands (arg1 / arg2 of union, through clone / Some / deref) occurring in an origin tree"""
+    out = set()
+    for x in local.walk(o):
+        if x[0] == "param":
+            out.add(x[1])
+    return out
+
+
+def uni(ctx, lib):
+    from sa import guards
+    cc = [b for b in lib.bodies if b.kind == "assoc_fn" and b.sig_output == "expression::Expression"
+          and len([t for t in b.sig_inputs if t.startswith("std::collections::BTreeSet<char>")]) == 2]
+    sites_cc = []
+    for c_ in cc:
+        sites_cc += guards.call_sites(lib, c_.path)
+    if ctx.floor("UNI-1", "constructions of a merged character class", len(sites_cc), 1):
+        for body, bi, t in sites_cc:
+            fi = guards.FnInfo.of(body)
+            gs = guards.guards(body, bi)
+            singles = {}
+            for g in gs:
+                o = local.peel(g["origin"])
+                if o[0] == "call" and lib.body(o[1]) is not None and lib.body(o[1]).sig_inputs == ["&" + EXPR] and lib.body(o[1]).sig_output == "bool" \
+                        and guards.edge_truth(g) is True and fi.cfg.edge_dominates(g["block"], g["succ"], bi):
+                    singles[local.show(local.peel(o[2][0]))] = o[1]
+            bad = []
+            for a in t["args"][:2]:
+                ao = fi.defs.operand(a)
+                # the expression whose character set is taken: innermost operand of extract(clone(E))
+                inner = None
+                for x in local.walk(ao):
+                    if x[0] == "call" and x[1].endswith("Clone>::clone") and x[2]:
+                        inner = local.show(local.peel(x[2][0]))
+                        break
+                if inner is None or inner not in singles:
+                    bad.append(inner or local.show(ao)[:60])
+            if bad:
+                ctx.violation("UNI-1", (body.path, "character class merge"),
+                              "two alternatives are merged into one character class without both being known to be a single code point (unguarded operand: %s): "
+                              "a multi-character alternative would be dissolved into its characters" % bad, body.loc(t.get("line")))
+            else:
+                ctx.ok("UNI-1", "%s:class merge under single-code-point guards" % body.path, {"guards": sorted(set(singles.values()))}, body.loc(t.get("line")))
+    # UNI-2: `x?` is built from the non-empty side
+    rep = [b for b in lib.bodies if b.kind == "assoc_fn" and b.sig_output == "expression::Expression" and "quantifier::Quantifier" in b.sig_inputs]
+    n2 = 0
+    for r_ in rep:
+        for body, bi, t in guards.call_sites(lib, r_.path):
+            fi = guards.FnInfo.of(body)
+            q = fi.defs.operand(t["args"][1])
+            if not (q[0] == "agg" and q[2] and q[2].endswith("::QuestionMark")):
+                continue
+            x = fi.defs.operand(t["args"][0])
+            if not (x[0] == "call" and x[1].endswith("Clone>::clone")):
+                continue            # `(a|b)?` built from a fresh alternation: not the empty-side idiom
+            xs = local.show(local.peel(x[2][0]))
+            empties = []
+            for g in guards.guards(body, bi):
+                o = local.peel(g["origin"])
+                if o[0] == "call" and lib.body(o[1]) is not None and lib.body(o[1]).sig_inputs == ["&" + EXPR] and lib.body(o[1]).sig_output == "bool" \
+                        and guards.edge_truth(g) is True and fi.cfg.edge_dominates(g["block"], g["succ"], bi):
+                    empties.append(local.show(local.peel(o[2][0])))
+            n2 += 1
+            if not empties:
+                ctx.violation("UNI-2", (body.path, "optional side"), "an alternative is made optional without the other alternative being known to be empty", body.loc(t.get("line")))
+            elif xs in empties:
+                ctx.violation("UNI-2", (body.path, "optional side"), "the alternative known to be *empty* is the one made optional: the non-empty alternative is lost", body.loc(t.get("line")))
+            else:
+                ctx.ok("UNI-2", "%s:%s? under is_empty(other)" % (body.path, xs[-40:]), None, body.loc(t.get("line")))
+    ctx.floor("UNI-2", "optional-side constructions", n2, 2)
+    # UNI-3: a removed common prefix is re-attached in front, a removed common suffix behind
+    conc = [b for b in lib.bodies if b.kind == "assoc_fn" and b.sig_output == "expression::Expression"
+            and len([t for t in b.sig_inputs if t == EXPR]) == 2]
+    n3 = 0
+    for c_ in conc:
+        for body, bi, t in guards.call_sites(lib, c_.path):
+            fi = guards.FnInfo.of(body)
+            kinds = []
+            for ai, a in enumerate(t["args"][:2]):
+                ao = local.peel(fi.defs.operand(a))
+                # only an operand that *is* a literal built from the removed substring counts (not the factored rest, which may
+                # itself contain an earlier re-attachment)
+                if not (ao[0] == "call" and lib.body(ao[1]) is not None and any("cluster::GraphemeCluster" in ty for ty in lib.body(ao[1]).sig_inputs)):
+                    continue
+                for x in local.walk(ao):
+                    if x[0] == "call" and lib.body(x[1]) is not None and any(y[0] == "agg" and y[2] and y[2].startswith("substring::Substring::") for z in x[2] for y in local.walk(z)):
+                        for z in x[2]:
+                            for y in local.walk(z):
+                                if y[0] == "agg" and y[2] and y[2].startswith("substring::Substring::"):
+                                    kinds.append((ai, y[2].rsplit("::", 1)[1]))
+            kinds = sorted(set(kinds))
+            if not kinds:
+                continue
+            n3 += 1
+            bad = [(ai, k) for ai, k in kinds if (k == "Prefix" and ai != 0) or (k == "Suffix" and ai != 1)]
+            if bad or len(kinds) != 1:
+                ctx.violation("UNI-3", (body.path, "re-attachment order"), "a removed common %s is re-attached as operand %d of the concatenation" % (
+                    (bad or kinds)[0][1].lower(), (bad or kinds)[0][0] + 1), body.loc(t.get("line")))
+            else:
+                ctx.ok("UNI-3", "%s:%s re-attached as operand %d" % (body.path, kinds[0][1], kinds[0][0] + 1), None, body.loc(t.get("line")))
+    ctx.floor("UNI-3", "re-attachments of a removed common prefix/suffix", n3, 2)
